@@ -32,11 +32,32 @@ def with_params(req, params, case_dir=None, service_yaml=None, retry=None):
     return r
 
 
-def run_generator(req, hashseed="0", cwd=None, timeout=300):
-    """python -m gapic.cli.generate in a child. Returns (response|None, stderr_text)."""
+def faketime_lib():
+    """Path of the LD_PRELOAD clock-shift shim (harness/native/faketime.c), built on first use; None if no C compiler works."""
+    src = os.path.join(env.VERIF, "harness", "native", "faketime.c")
+    out = os.path.join(env.VERIF, "harness", "native", "libgvfaketime.so")
+    if not os.path.exists(out) or os.path.getmtime(out) < os.path.getmtime(src):
+        tmp = out + f".{os.getpid()}.tmp"
+        p = subprocess.run(["cc", "-shared", "-fPIC", "-O1", "-o", tmp, src, "-ldl"], stdout=subprocess.PIPE, stderr=subprocess.PIPE)
+        if p.returncode != 0:
+            return None
+        os.replace(tmp, out)
+    return out
+
+
+def run_generator(req, hashseed="0", cwd=None, timeout=300, clock_offset=0):
+    """python -m gapic.cli.generate in a child. Returns (response|None, stderr_text).
+    clock_offset: seconds added to the real-time clock seen by the child (LD_PRELOAD shim)."""
     data = req.SerializeToString() if not isinstance(req, (bytes, bytearray)) else bytes(req)
+    e = env.child_env(hashseed)
+    if clock_offset:
+        lib = faketime_lib()
+        if lib is None:
+            return None, "faketime shim could not be built"
+        e["LD_PRELOAD"] = lib
+        e["GV_FAKETIME_OFFSET"] = str(int(clock_offset))
     p = subprocess.run([env.PY, "-m", "gapic.cli.generate"], input=data, stdout=subprocess.PIPE,
-                       stderr=subprocess.PIPE, env=env.child_env(hashseed), cwd=cwd or env.scratch(), timeout=timeout)
+                       stderr=subprocess.PIPE, env=e, cwd=cwd or env.scratch(), timeout=timeout)
     if p.returncode != 0:
         return None, p.stderr.decode("utf-8", "replace")
     res = plugin_pb2.CodeGeneratorResponse()
